@@ -1493,6 +1493,11 @@ func (self *Analyzer) matchExpression(node pAst.MatchExpression) ast.AnalyzedMat
 		})
 	}
 
+	// Without a default branch the match is left if no literal matches: it does not diverge even if every arm does.
+	if defaultArm == nil && resultType.Kind() == ast.NeverTypeKind {
+		resultType = ast.NewNullType(node.Range)
+	}
+
 	// create an error if the result type is != unknown and there is no default branch
 	lastSpan := node.Span()
 	if len(node.Arms) > 0 {
